@@ -70,7 +70,7 @@ let parse_obs out =
     | _ -> failwith "bad observation") (String.split_on_char ';' body)
 
 (* alternating words appended for the repaired-variant run, so that its loop terminates *)
-let ext_words = List.init 64 (fun i -> z_of_string (if i mod 2 = 0 then "12297829382473034410" else "6148914691236517205"))
+let ext_words = List.init 4096 (fun i -> z_of_string (if i mod 2 = 0 then "12297829382473034410" else "6148914691236517205"))
 
 let known_f8 = ref 0
 let () = at_exit (fun () ->
@@ -87,6 +87,8 @@ let spec prop inp out =
     let fail = ref None in
     let set i msg = if !fail = None then fail := Some (Printf.sprintf "op#%d: %s" i msg) in
     let len_exceeded = ref false in
+    (* F8's trigger: since the last Reset some halving (threshold moved) left the buffer full *)
+    let still_full_after_pass = ref false and pprev = ref (-1L) in
     let rec go i ops obs =
       match ops, obs with
       | _, [] -> ()
@@ -94,7 +96,7 @@ let spec prop inp out =
       | o :: ops', (l, c, p) :: obs' ->
         (match o with
          | PReset ->
-           Hashtbl.reset seen; jprev := 0;
+           Hashtbl.reset seen; jprev := 0; still_full_after_pass := false;
            if l <> 0 || c <> 0L then set i "Reset leaves a non-empty counter";
            if p <> (-1L) then set i "Reset does not restore the threshold"
          | PAdd v -> Hashtbl.replace seen v ());
@@ -109,9 +111,11 @@ let spec prop inp out =
         (* the property is stated for sizes >= 2; the bound is checked from size 1 on; NewCounter(0)
            or a negative size makes every successful Add halve and has no bound to keep *)
         if !fail = None && cap >= 1 && l > cap then begin
-          len_exceeded := true;
+          len_exceeded := !still_full_after_pass;   (* set by an EARLIER operation only *)
           set i (Printf.sprintf "Len %d exceeds the buffer size %d" l cap)
         end;
+        if p <> !pprev && (match o with PAdd _ -> true | PReset -> false) && l >= cap then still_full_after_pass := true;
+        pprev := p;
         if !fail = None then go (i + 1) ops' obs' in
     go 0 ops obs;
     (match !fail with
